@@ -327,6 +327,8 @@ class ExprMixin:
             return v.card > 0
         if isinstance(v, sv.STup):
             return z3.BoolVal(len(v.items) > 0)
+        if isinstance(v, sv.SPy) and v.what == "kwargs" and isinstance(v.payload, dict) and "$kwargs" not in v.payload:
+            return z3.BoolVal(len(v.payload) > 0)     # **kwargs with a statically known set of keys
         if isinstance(v, sv.SStr):
             if v.py is not None:
                 return z3.BoolVal(len(v.py) > 0)
